@@ -328,7 +328,7 @@ func TestVerifC18(t *testing.T) {
 	if !child && r.Thorough() {
 		exit, evs := ev.RunShards(14, "TestVerifC18")
 		os.Setenv("VERIF_MERGE_EVIDENCE", strings.Join(evs, ","))
-		c18Describe(r, 3, 4)
+		c18Describe(r, ev.MinStageInt(evs, "completed_deviation_bound"), 4)
 		if code := r.Finish(); code > exit {
 			exit = code
 		}
@@ -437,6 +437,6 @@ func TestVerifC18(t *testing.T) {
 func c18Describe(r *ev.Run, completeBound, maxBound int) {
 	r.Bounds["deviation_bound_complete"] = completeBound
 	r.Bounds["deviation_bound_attempted"] = maxBound
-	r.Rule = "the real handleConn of thermal-writer (which starts the real writer goroutine) on an in-memory connection, under the cooperative scheduler: instrumented copies of main.go/thermalraw.go/bufferedfile.go (channel operations, goroutine start, select, one-minute rotation timer, clock are scheduling points; the Go select's random pick and the timer are explored choices); buffer pool size inFlight scaled to 1,2,3 with 0..2N+2 frames, a trailing partial frame, a short read, inFlight=256 with 258 frames at bound 1, and the camera reconnecting within the same process with another frame size; every interleaving with at most the stated number of deviations (preemptions + timer fires; thorough: sharded over 14 processes, the higher bound under a time cap, reported per scenario). Oracle: all *.cptr parse (magic, version, header fields, only length-prefixed frame sections, no trailing bytes), concatenated payloads = frames sent, no deadlock/panic, and no pair of frame-buffer accesses (io.ReadFull fill vs writeFrame) unordered by channel happens-before. Non-trivial = every execution."
+	r.Rule = "the real handleConn of thermal-writer (which starts the real writer goroutine) on an in-memory connection, under the cooperative scheduler: instrumented copies of main.go/thermalraw.go/bufferedfile.go (channel operations, goroutine start, select, one-minute rotation timer, clock are scheduling points; the Go select's random pick and the timer are explored choices); buffer pool size inFlight scaled to 1,2,3 with 0..2N+2 frames, a trailing partial frame, a short read, inFlight=256 with 258 frames at bound 1, and the camera reconnecting within the same process with another frame size; every interleaving with at most the stated number of deviations (preemptions + timer fires; thorough: sharded over 14 processes, the higher bound under a time cap, reported per scenario). Oracle: all *.cptr parse (magic, version, header fields, only length-prefixed frame sections, no trailing bytes), concatenated payloads = frames sent, no deadlock/panic, and no pair of frame-buffer accesses (io.ReadFull fill vs writeFrame) unordered by channel happens-before. Non-trivial = every execution (the depth-first enumeration never repeats a choice sequence, so executions of one scenario are pairwise distinct schedules)."
 	r.Assumptions = []string{"sequentially consistent interleavings at synchronisation granularity + happens-before race check on the frame buffers (a race-free Go program is SC)", "bufio buffer scaled from 32 MiB to 64 KiB, inFlight scaled through a run-time parameter (both by the syntactic instrumenter)"}
 }
